@@ -40,7 +40,7 @@ STYLE_OK = (0, 3, 4, 6, 7)
 def BOUNDS(tier):
     if tier == "quick":
         return {"max_nodes": 4, "devs": {1: 3, 2: 3, 3: 2, 4: 1}, "max_msgs": 7}
-    return {"max_nodes": 5, "devs": {1: 2, 2: 4, 3: 6, 4: 3, 5: 1}, "max_msgs": 10}
+    return {"max_nodes": 5, "devs": {1: 3, 2: 4, 3: 3, 4: 2, 5: 1}, "max_msgs": 9}
 
 
 def units(tier):
